@@ -276,7 +276,7 @@ let op_cssp args = match args with
   | ["chal"; h] ->
     (match der_decode_all ts_request_sch (unhex h) with
      | Some (DSeq [_; DExplicit (_, _, DSeqOf (DSeq [DExplicit (_, _, DOctets tok)] :: _))]) -> "ok:" ^ hex tok
-     | Some _ -> "panic"                    (* nego_tokens.inner[0] on an empty negoTokens (finding 11, property C07) *)
+     | Some _ -> "err:InvalidOptionalField"  (* empty negoTokens: an error since the repair of finding 11 (property C07) *)
      | None -> "err:Asn1")
   | ["val"; h] ->
     (match der_decode_all ts_validate_sch (unhex h) with
